@@ -1164,6 +1164,10 @@ func (st *inlineState) normalise(body *ast.BlockStmt) {
 			}
 		case *ast.RangeStmt:
 			blk(x.Body)
+			if r := st.unrollLiteralRange(x, body); r != nil {
+				st.changed = true
+				return lists(r)
+			}
 		case *ast.LabeledStmt:
 			r := one(x.Stmt)
 			if len(r) == 1 {
@@ -1562,4 +1566,133 @@ func (st *inlineState) indexToRange(x *ast.ForStmt) ast.Stmt {
 	}
 	return &ast.RangeStmt{For: x.For, Key: init.Lhs[0], Value: first.Lhs[0], TokPos: init.TokPos, Tok: token.DEFINE, X: coll,
 		Body: &ast.BlockStmt{Lbrace: x.Body.Lbrace, List: x.Body.List[1:], Rbrace: x.Body.Rbrace}}
+}
+
+
+// unrollLiteralRange: `for _, v := range []T{e1, …, en} { body }` (the slice given
+// directly or through a local defined once by that literal), with at most 24
+// elements that are field paths, addresses of field paths or plain variables,
+// no key variable, no break/continue of this loop and no assignment to v,
+// is the body repeated once per element with v replaced by the element.
+func (st *inlineState) unrollLiteralRange(x *ast.RangeStmt, scope *ast.BlockStmt) []ast.Stmt {
+	if x.Value == nil || x.Tok != token.DEFINE {
+		return nil
+	}
+	if k, ok := x.Key.(*ast.Ident); x.Key != nil && (!ok || k.Name != "_") {
+		return nil
+	}
+	vid, ok := x.Value.(*ast.Ident)
+	if !ok {
+		return nil
+	}
+	lv, _ := st.info.Defs[vid].(*types.Var)
+	if lv == nil {
+		return nil
+	}
+	var lit *ast.CompositeLit
+	switch y := ast.Unparen(x.X).(type) {
+	case *ast.CompositeLit:
+		lit = y
+	case *ast.Ident:
+		sv, _ := st.info.Uses[y].(*types.Var)
+		if sv == nil || sv.IsField() {
+			return nil
+		}
+		ndefs, nuses := 0, 0
+		ast.Inspect(scope, func(n ast.Node) bool {
+			switch z := n.(type) {
+			case *ast.AssignStmt:
+				for i, l := range z.Lhs {
+					if id, ok := l.(*ast.Ident); ok && (st.info.Defs[id] == types.Object(sv) || st.info.Uses[id] == types.Object(sv)) {
+						ndefs++
+						if len(z.Lhs) == len(z.Rhs) {
+							lit, _ = ast.Unparen(z.Rhs[i]).(*ast.CompositeLit)
+						}
+					}
+				}
+			case *ast.Ident:
+				if st.info.Uses[z] == types.Object(sv) {
+					nuses++
+				}
+			}
+			return true
+		})
+		if ndefs != 1 || nuses != 1 || lit == nil {
+			return nil
+		}
+	default:
+		return nil
+	}
+	if _, isSlice := st.info.TypeOf(lit).Underlying().(*types.Slice); !isSlice || len(lit.Elts) == 0 || len(lit.Elts) > 24 {
+		return nil
+	}
+	for _, e := range lit.Elts {
+		if _, isKV := e.(*ast.KeyValueExpr); isKV {
+			return nil
+		}
+		in := ast.Unparen(e)
+		if u, ok := in.(*ast.UnaryExpr); ok && u.Op == token.AND {
+			in = ast.Unparen(u.X)
+		}
+		if r, _ := FieldPath(st.info, in); r == nil {
+			return nil
+		}
+	}
+	// the body must not leave or restart the loop, nor assign the loop variable
+	bad := false
+	var scan func(n ast.Node, nested bool)
+	scan = func(n ast.Node, nested bool) {
+		ast.Inspect(n, func(m ast.Node) bool {
+			if m == nil || bad {
+				return false
+			}
+			switch b := m.(type) {
+			case *ast.BranchStmt:
+				if b.Label == nil && (b.Tok == token.CONTINUE || b.Tok == token.BREAK) && !nested {
+					bad = true
+				}
+				if b.Label == nil && b.Tok == token.CONTINUE {
+					bad = true // a continue in a nested switch still targets this loop
+				}
+			case *ast.ForStmt, *ast.RangeStmt:
+				if m != n {
+					ast.Inspect(m, func(k ast.Node) bool { return true })
+					return false
+				}
+			case *ast.SwitchStmt, *ast.TypeSwitchStmt, *ast.SelectStmt:
+				if m != n {
+					scan(m, true)
+					return false
+				}
+			case *ast.FuncLit:
+				return false
+			}
+			return true
+		})
+	}
+	for _, s := range x.Body.List {
+		scan(s, false)
+	}
+	if bad || st.paramWritten(lv, x.Body) {
+		return nil
+	}
+	var out []ast.Stmt
+	for _, e := range lit.Elts {
+		cp := st.cloneNode(x.Body).(*ast.BlockStmt)
+		if id, ok := ast.Unparen(e).(*ast.Ident); ok {
+			if cv, ok := st.info.Uses[id].(*types.Var); ok {
+				ast.Inspect(cp, func(n ast.Node) bool {
+					if li, ok := n.(*ast.Ident); ok && st.info.Uses[li] == types.Object(lv) {
+						st.info.Uses[li] = cv
+						li.Name = cv.Name()
+					}
+					return true
+				})
+			}
+		} else {
+			st.replaceUses(reflect.ValueOf(cp), lv, e)
+		}
+		out = append(out, cp.List...)
+	}
+	return out
 }
